@@ -269,6 +269,8 @@ type World struct {
 	evMu   sync.Mutex
 	Events []Event
 
+	tokenOf   map[string]string // client -> RESERVATION-TOKEN most recently issued to it
+	evenPort  map[string]int    // client -> the even relayed port that token stands next to
 	curTxid   [stun.TransactionIDSize]byte
 	curPay    map[string][]byte
 	allocTxid map[string][stun.TransactionIDSize]byte
@@ -324,9 +326,11 @@ func (g *memGen) AllocatePacketConn(c turn.AllocateListenerConfig) (net.PacketCo
 	}
 	port := c.RequestedPort
 	if port == 0 {
+		// automatic ports are multiples of 4, so that the port next to an even one (which a
+		// RESERVATION-TOKEN stands for) is never handed to an unrelated allocation by accident
 		for {
 			g.next++
-			port = 50000 + g.next
+			port = 50000 + 4*g.next
 			if !g.w.Net.Bound(&net.UDPAddr{IP: ip, Port: port}) {
 				break
 			}
@@ -376,6 +380,7 @@ func NewWorld(meta Meta, seed int64) (*World, error) {
 		clients: map[string]*MemConn{}, peerIP: map[string]net.IP{}, peerPort: map[int]int{},
 		peers: map[string]*MemConn{}, peerKey: map[string]peerKeyT{}, relayOwner: map[string]string{}, relayOf: map[string]*net.UDPAddr{},
 		curPay: map[string][]byte{}, allocTxid: map[string][stun.TransactionIDSize]byte{},
+		tokenOf: map[string]string{}, evenPort: map[string]int{},
 	}
 	srv4 := &net.UDPAddr{IP: net.IPv4(10, 0, 0, 1).To4(), Port: 3478}
 	srv6 := &net.UDPAddr{IP: net.ParseIP("fd00::1"), Port: 3478}
@@ -857,6 +862,19 @@ func (w *World) do1(a map[string]any, wait func()) (obs []Obs, retry bool, err e
 			attrs = append(attrs, w.lifeAttr(lr))
 		}
 		attrs = append(attrs, famAttr(toInt(a["rf"]))...)
+		switch tk, _ := a["tk"].(string); tk {
+		case "", "none":
+		case "even":
+			attrs = append(attrs, proto.EvenPort{ReservePort: true})
+		case "bogus":
+			attrs = append(attrs, proto.ReservationToken(w.payload("bogus-token", 8)))
+		default: // the token most recently issued to client tk (a made-up one if none ever was)
+			tok := w.tokenOf[tk]
+			if tok == "" {
+				tok = string(w.payload("no-token", 8))
+			}
+			attrs = append(attrs, proto.ReservationToken([]byte(tok)))
+		}
 		w.sendFromClient(c, w.authed(u, w.curTxid, stun.MethodAllocate, attrs...))
 	case "Refresh":
 		attrs := []stun.Setter{}
@@ -997,6 +1015,12 @@ func (w *World) collect(action, actor string) (obs []Obs, retry bool) {
 				}
 				w.relayOwner[key(ra)] = c
 				w.relayOf[c] = ra
+				if tok, ok := o["token"].(string); ok {
+					if prev, had := w.tokenOf[c]; had && w.evenPort[c] == ra.Port && prev != tok {
+						o["tokenchanged"] = true // a retransmission must replay the same token
+					}
+					w.tokenOf[c], w.evenPort[c] = tok, ra.Port
+				}
 			}
 			obs = append(obs, o)
 		}
@@ -1095,6 +1119,10 @@ func (w *World) decodeAtClient(c string, pk Pkt) Obs {
 		}
 		if m.Contains(stun.AttrMessageIntegrity) {
 			o["mi"] = true
+		}
+		var rt proto.ReservationToken
+		if rt.GetFrom(m) == nil {
+			o["token"] = string(rt)
 		}
 
 		return o
